@@ -77,3 +77,63 @@ def fit_problems(seed=0, rows=8, n_sensors=2, k=1):
     if not all(v > 0 for v in after["process_noise"].values()):
         problems.append(f"fitted process noise not strictly positive: {after['process_noise']}")
     return problems, info
+
+
+def transform_problems(seed=0, rows=5, n_sensors=2, k=1, k_edit=None):
+    """transform / mahalanobis / score vs running the exported filter by hand (predict dt=0.1, sensors in key order)."""
+    import math
+
+    py, ui, est, info = simple_adapter(seed, n_sensors, k, {"innovation_filtering": k_edit})
+    X = data_for(info, rows, seed)
+    problems = []
+    before = snapshot(est)
+    try:
+        T = est.transform(X)
+        T2 = est.transform(X)
+        M = est.mahalanobis(X)
+        score, expl = est.score(X, explain_score=True)
+        score2 = est.score(X)
+    except Exception as e:
+        return [f"{type(e).__name__}: {(str(e).splitlines() or [''])[0][:160]}"], info
+    if snapshot(est) != before:
+        problems.append("transform/mahalanobis/score changed the estimator's parameters")
+    ekf = est.export_python()
+    state, cov = ekf.State(), ekf.Covariance()
+    keys = sorted(info["sensors"])
+    want = []
+    kk = len(info["controls"])
+    for i in range(rows):
+        ctl = ekf.Control.from_data(X[i, :kk].reshape((kk, 1)).copy())
+        state, cov = ekf.process_model(0.1, state, cov, ctl)
+        off = kk
+        row = []
+        for key in keys:
+            m = len(info["sensors"][key])
+            z = ekf.make_reading(key, data=X[i, off : off + m].reshape((m, 1)).copy())
+            off += m
+            state, cov = ekf.sensor_model(state, cov, sensor_key=key, sensor_reading=z)
+            nu, S = ekf.innovations[key], ekf.sensor_prediction_uncertainty[key]
+            row.append(float((nu.T @ np.linalg.inv(S) @ nu)[0, 0]))
+        want.append(row)
+    want = np.array(want)
+    if T.shape != want.shape:
+        problems.append(f"transform shape {T.shape}, expected {want.shape}")
+    elif not np.allclose(T, want, rtol=1e-9, atol=1e-12):
+        i, j = np.argwhere(~np.isclose(T, want, rtol=1e-9, atol=1e-12))[0]
+        problems.append(f"transform[{i}][{j}] = {T[i, j]!r} but running the exported filter by hand (sensors in key order {keys}) gives NIS {want[i, j]!r}")
+    if not np.array_equal(T, T2):
+        problems.append("repeating transform gives different values")
+    if np.any(T < 0):
+        problems.append("negative NIS")
+    if M.shape != (want.size,) or not np.allclose(M, want.flatten(), rtol=1e-9, atol=1e-12):
+        problems.append("mahalanobis is not transform flattened")
+    d = want.flatten()
+    bias = float(np.mean(np.sqrt(d)) ** 2)
+    var = float((1.0 / d.sum() + d.sum()) / 2.0)
+    size = sum(v * v for v in before["process_noise"].values()) + sum(v * v for m in before["sensor_noises"].values() for v in m.values())
+    total = 10.0 * bias + 1.0 * var + 0.01 * size
+    if not math.isclose(score, total, rel_tol=1e-9) or not math.isclose(score2, total, rel_tol=1e-9):
+        problems.append(f"score {score} is not 10*bias + 1*variance + 0.01*size = {total}")
+    if not (math.isclose(expl[1], bias, rel_tol=1e-9) and math.isclose(expl[3], var, rel_tol=1e-9) and math.isclose(expl[5], size, rel_tol=1e-9) and tuple(expl[0::2]) == (10.0, 1.0, 0.01)):
+        problems.append(f"explain_score components {expl} differ from (10, {bias}, 1, {var}, 0.01, {size})")
+    return problems, info
